@@ -216,6 +216,8 @@ pub fn feature_modules() -> Vec<(&'static str, String)> {
         m("bool", "A ::= BOOLEAN"),
         m("int", "A ::= INTEGER B ::= INTEGER (0..255) C ::= INTEGER { one(1), two(2) } (1..2) D ::= INTEGER (MIN..5 | 10..MAX, ...)"),
         m("enum", "E ::= ENUMERATED { a, b(5), c } F ::= ENUMERATED { a, ..., b }"),
+        // identifier-only items around numbers that the counting would hand out (X.680 20.4: every item gets a distinct number)
+        m("enum-numbering", "G ::= ENUMERATED { first, second(0), third } H ::= ENUMERATED { a, b, c(1) } I ::= ENUMERATED { a(1), b, c(0), ..., d, e(7), f } J ::= SEQUENCE { e ENUMERATED { x, y(0) }, f ENUMERATED { p(2), q, r(1), s } }"),
         m("bits", "A ::= BIT STRING B ::= BIT STRING { x(0), y(3) } (SIZE (4..8)) C ::= OCTET STRING (SIZE (2)) D ::= OCTET STRING (SIZE (1..4, ...))"),
         m("strings", "A ::= UTF8String (SIZE (1..10)) B ::= IA5String (FROM (\"a\"..\"z\" | \"0\"..\"9\")) (SIZE (1..8)) C ::= NumericString D ::= PrintableString E ::= VisibleString F ::= BMPString G ::= UniversalString H ::= TeletexString I ::= T61String J ::= GraphicString K ::= GeneralString L ::= ISO646String M2 ::= SEQUENCE { i ISO646String (SIZE (1..4)) OPTIONAL }"),
         m("misc", "A ::= NULL B ::= OBJECT IDENTIFIER C ::= RELATIVE-OID D ::= UTCTime E ::= GeneralizedTime F ::= ANY"),
